@@ -491,3 +491,10 @@ Fixpoint tc_before_go (seen : bool) (m : module) : bool :=
   | _ :: r => tc_before_go seen r
   end.
 Definition tc_before (m : module) : bool := tc_before_go false m.
+
+(* sub-class of kf_apply_extra with a behavioural consequence: the module-level import that libcst's apply step adds and
+   that is not moved binds a name that a run-time import of the source already binds (to something else: the item
+   differs), so the name is rebound when the module is imported *)
+Definition kf_rebind (stub src applied : module) : bool :=
+  existsb (fun it => negb (allowed_runtime src it) && negb (memb it (moved_items stub src))
+                     && smemb (item_bound it) (runtime_bound src)) (top_items applied).
